@@ -150,14 +150,16 @@ func runC14(c *Ctx) {
 
 func runC11(c *Ctx) {
 	c.rule("chain", "the environment source's mangler chain, by resolved type and constructor constants", 5)
-	c.rule("only-present", "the only environment API used by the source is os.LookupEnv; a field is set only under its ok result, with the looked-up string, at the index whose dialsenv tag was read; the prefix is prepended exactly when Prefix is non-empty", 4)
+	c.rule("only-present", "the only environment API used by the source is os.LookupEnv; a field is set only under its ok result, with the looked-up string, at the index whose dialsenv tag was read; the prefix is prepended exactly when Prefix is non-empty (guard table)", 5)
 	c.rule("no-env-writes", "no non-test code in the repository calls os.Setenv/Unsetenv/Clearenv (vacuity guard: the scan must see the os.LookupEnv call)", 1)
 	c.rule("errors-propagate", "a parse error is tested and returned at every hop: parse.String -> StringCastingMangler.Unmangle -> Transformer.unmangleField -> ReverseTranslate -> env Value", 4)
 	c.rule("unset-stays-unset", "string-cast Unmangle returns the zero of the field type for a nil *string before parsing anything", 1)
 	c.rule("flatten-flag-accumulates", "in the flatten unmangler the 'any child set' flag is old || nested after a nested struct and true under a non-nil leaf, and gates the parent pointer (a variable that is present must not be dropped because a later sibling struct is empty); shared with C10", 3)
 	c10FlattenFlag(c)
+	c.rule("pair-state-reset", "after the map splitter hands a (key, value) pair to its callback, both pieces of state are reset to \"\" on every path that continues parsing (a value must not leak into a later key that has none)", 2)
 	c.rule("narrowing-guard", "an out-of-range value is an error, never truncated: every narrowing conversion of a parsed number is bounded by the strconv bit size or a dominating reflect Overflow test of the matching type; shared with C15", 10)
 	c15Narrowing(c)
+	c15PairStateReset(c, "pair-state-reset")
 
 	w := c.W
 	f := w.fn("sources/env", "Source.Value")
@@ -302,6 +304,48 @@ func runC11(c *Ctx) {
 		}
 	}
 	c.check(okPrefix, "only-present", "env#prefix", f.Pos(), "Prefix + \"_\" is prepended exactly when Prefix != \"\"", "the prefix is not prepended under Prefix != \"\" with a \"_\" separator")
+	// ... and under nothing else: the guard of the concatenation, taken from where the tag value is defined, is exactly Prefix != ""
+	for _, i := range allInstrs(f) {
+		b, ok := i.(*ssa.BinOp)
+		if !ok || b.Op != token.ADD {
+			continue
+		}
+		if s, ok := constString(b.Y); !ok || s != "_" {
+			continue
+		}
+		if _, isP := loadOfTypeField(b.X, "sources/env.Source", "Prefix"); !isP {
+			continue
+		}
+		for _, r := range *b.Referrers() {
+			outer, ok := r.(*ssa.BinOp)
+			if !ok || outer.Op != token.ADD || outer.X != ssa.Value(b) {
+				continue
+			}
+			from := f.Blocks[0]
+			if di, ok := outer.Y.(ssa.Instruction); ok {
+				from = di.Block()
+			}
+			pbx := &predBuilder{name: func(v ssa.Value) string {
+				if bb, ok := v.(*ssa.BinOp); ok && (bb.Op == token.NEQ || bb.Op == token.EQL) {
+					if _, isP := loadOfTypeField(bb.X, "sources/env.Source", "Prefix"); isP {
+						if s, ok := constString(bb.Y); ok && s == "" {
+							if bb.Op == token.NEQ {
+								return "prefixSet"
+							}
+						}
+					}
+				}
+				if bb, ok := v.(*ssa.BinOp); ok && bb.Op == token.EQL && sameValue(bb.X, outer.Y) {
+					if s, ok := constString(bb.Y); ok && s == "" {
+						return "tagEmpty" // the empty-tag arm panics
+					}
+				}
+				return ""
+			}}
+			g := pbx.pathCond(from, outer.Block())
+			c.checkTable("only-present", "env#prefix-guard", outer.Pos(), g, []string{"prefixSet", "tagEmpty"}, nil, "Prefix != \"\" (and the tag is not empty: that arm panics)", func(e env) bool { return e.B["prefixSet"] && !e.B["tagEmpty"] })
+		}
+	}
 
 	// ---- no-env-writes ---------------------------------------------------------------------
 	sawLookup, bad := false, false
